@@ -17,6 +17,60 @@ def lbytes(x):
     return '[' + ', '.join(str(c) for c in x) + ']'
 
 
+def plugin_order_table():
+    """C08/C09: for a fixed table of flag combinations, what FlagParser.initialize hands to
+    Plugins.load (class name, plugin bucket, in order), the auth plugin, the requested plugins
+    and the resulting HttpProxyBasePlugin list (observed, not recomputed)."""
+    import inspect
+    import logging
+    from proxy.common.flag import FlagParser
+    from proxy.common.plugins import Plugins
+    from proxy.common.utils import bytes_
+    logging.disable(logging.CRITICAL)
+    mitm, flt = 'proxy.plugin.ManInTheMiddlePlugin', 'proxy.plugin.FilterByUpstreamHostPlugin'
+    combos = [
+        (None, [], {}), ('user:pass', [], {}), ('user:pass', [mitm], {}),
+        ('user:pass', [flt, mitm], {}), ('user:pass', [mitm, flt], {}),
+        ('a:b', [mitm, mitm], {}), ('a:b', [mitm, 'proxy.http.proxy.auth.AuthPlugin'], {}),
+        ('a:b', ['proxy.plugin.ModifyChunkResponsePlugin', 'proxy.plugin.WebServerPlugin',
+                 'proxy.plugin.ProxyPoolPlugin'], {'enable_web_server': True}),
+        (None, [mitm], {}),
+    ]
+    rows = []
+    for auth, req, extra in combos:
+        seen = {}
+        orig = Plugins.load
+
+        def spy(plugins, abc_plugins=None, _o=orig, _s=seen):
+            _s['arg'] = list(plugins)
+            _s['res'] = _o(plugins, abc_plugins)
+            return _s['res']
+        Plugins.load = staticmethod(spy)
+        try:
+            kw = dict(extra)
+            if auth:
+                kw['basic_auth'] = auth
+            flags = FlagParser.initialize(['--hostname', '127.0.0.1'], threadless=True, plugins=list(req), **kw)
+        finally:
+            Plugins.load = staticmethod(orig)
+
+        def nm(entry):
+            return bytes_(Plugins.importer(entry)[0].__qualname__)
+
+        def bucket(entry):
+            for c in inspect.getmro(Plugins.importer(entry)[0]):
+                if bytes_(c.__qualname__) in seen['res']:
+                    return bytes_(c.__qualname__)
+            return b'?'
+        rows.append((
+            [(nm(e), bucket(e)) for e in seen['arg']],
+            nm(bytes_(flags.auth_plugin)) if auth else b'',
+            [nm(bytes_(r)) for r in req],
+            [bytes_(k.__qualname__) for k in flags.plugins[b'HttpProxyBasePlugin']],
+        ))
+    return rows
+
+
 def collect():
     from proxy.common import constants as C
     from proxy.http.websocket.frame import WebsocketFrame
@@ -43,6 +97,7 @@ def collect():
     B('http10', C.HTTP_1_0)
     B('http11', C.HTTP_1_1)
     N('defaultHttpPort', C.DEFAULT_HTTP_PORT)
+    N('defaultPort', C.DEFAULT_PORT)
     N('defaultBufferSize', C.DEFAULT_BUFFER_SIZE)
     N('defaultMaxSendSize', C.DEFAULT_MAX_SEND_SIZE)
     N('defaultTimeout', C.DEFAULT_TIMEOUT)
@@ -69,6 +124,17 @@ def collect():
     N('selectTimeoutMs', round(C.DEFAULT_SELECTOR_SELECT_TIMEOUT * 1000))
     N('waitTimeoutMs', round(C.DEFAULT_WAIT_FOR_TASKS_TIMEOUT * 1000))
     N('cleanupTimeoutMs', round(C.DEFAULT_INACTIVE_CONN_CLEANUP_TIMEOUT * 1000))
+    # C08/C09: header names stripped before forwarding, plugin load order table
+    from proxy.http.headers import httpHeaders as _HH
+    B('hdrProxyAuthorization', _HH.PROXY_AUTHORIZATION)
+    B('hdrProxyConnection', _HH.PROXY_CONNECTION)
+    out.append(('pluginOrderTable',
+                'List (List (List UInt8 × List UInt8) × List UInt8 × List (List UInt8) × List (List UInt8))',
+                '[' + ',\n  '.join('([%s], %s, [%s], [%s])' % (
+                    ', '.join('(%s, %s)' % (lbytes(a), lbytes(b_)) for a, b_ in arg), lbytes(au),
+                    ', '.join(lbytes(r) for r in req), ', '.join(lbytes(r) for r in res))
+                    for arg, au, req, res in plugin_order_table()) + ']',
+                'rows: (argument of Plugins.load as (class, bucket), auth plugin or empty, requested plugins, loaded HttpProxyBasePlugin list)'))
     return out
 
 
